@@ -1038,7 +1038,6 @@ walk_descents(cholmod_sparse *AtA_F,
 		int done = false;
 		pthread_mutex_lock(&mutex);
 		while (!done) {
-			pthread_cond_wait(&cv, &mutex);
 			done = true;
 			for (j = 0; j < n_threads; j++) {
 				if (i*n_threads + j >= n_alpha)
@@ -1046,6 +1045,12 @@ walk_descents(cholmod_sparse *AtA_F,
 				if (descent_trials[j].state != WAIT)
 					done = false;
 			}
+			/*
+			 * Check before waiting: the workers may all have
+			 * reported (and broadcast) before we got here.
+			 */
+			if (!done)
+				pthread_cond_wait(&cv, &mutex);
 		}
 		pthread_mutex_unlock(&mutex);
 
